@@ -2,11 +2,14 @@ package c
 
 import (
 	"bytes"
+	"errors"
 
 	"verifh/nd"
 
 	"github.com/go-i2p/common/base64"
+	"github.com/go-i2p/common/data"
 	"github.com/go-i2p/common/destination"
+	"github.com/go-i2p/common/key_certificate"
 	"github.com/go-i2p/common/keys_and_cert"
 	"github.com/go-i2p/common/router_identity"
 	"github.com/go-i2p/common/router_info"
@@ -164,4 +167,93 @@ func H_C07_AfterMutation() {
 		_ = a0
 		nd.Assert(ae1 == nil && a1 == string(refBase32(h1[:], false))+".b32.i2p", "mut/dest/address-follows-current-identity")
 	}
+}
+
+// H_C07_Constructed: identities that were CONSTRUCTED, not parsed (NewKeysAndCert with exact padding; a KeysAndCert
+// struct literal whose padding is nil, short, exact or overlong, wrapped by NewDestination /
+// NewRouterIdentityFromKeysAndCert): whenever the value serialises, its hash is the hash of that serialisation and the
+// address is the base32 of that hash.
+//
+//verif:props C07
+//verif:witness hashed
+func H_C07_Constructed() {
+	ct := []int{4, 0}[nd.IntRange(0, 1)]
+	cs, _ := specCrypto(ct)
+	kc, err := key_certificate.NewKeyCertificateWithTypes(7, ct)
+	nd.Assume(err == nil)
+	pk, perr := kc.ConstructPublicKey(append(nd.Bytes(cs), make([]byte, 256-cs)...))
+	nd.Assume(perr == nil)
+	sk, serr := kc.ConstructSigningPublicKey(nd.Bytes(32))
+	nd.Assume(serr == nil)
+	exact := 384 - cs - 32
+	pl := []int{-1, 0, exact - 1, exact, exact + 1}[nd.IntRange(0, 4)]
+	var pad []byte
+	if pl >= 0 {
+		pad = nd.Bytes(pl)
+	}
+	kac := &keys_and_cert.KeysAndCert{KeyCertificate: kc, ReceivingPublic: pk, Padding: pad, SigningPublic: sk}
+	if nd.Bool() {
+		d, derr := destination.NewDestination(kac)
+		if derr != nil || d == nil {
+			return
+		}
+		b, berr := d.Bytes()
+		if berr != nil {
+			return
+		}
+		nd.Cover("hashed")
+		h, herr := d.Hash()
+		nd.Assert(herr == nil && h == nd.Hash(b), "constructed/dest/hash-of-serialisation")
+		a, aerr := d.Base32Address()
+		nd.Assert(aerr == nil && a == string(refBase32(h[:], false))+".b32.i2p", "constructed/dest/address-of-hash")
+		return
+	}
+	r, rerr := router_identity.NewRouterIdentityFromKeysAndCert(kac)
+	if rerr != nil || r == nil {
+		return
+	}
+	b, berr := r.Bytes()
+	if berr != nil {
+		return
+	}
+	nd.Cover("hashed")
+	d := r.AsDestination()
+	h, herr := d.Hash()
+	nd.Assert(herr == nil && h == nd.Hash(b), "constructed/ri/hash-of-serialisation")
+}
+
+// failingReader delivers its data once and then fails.
+type failingReader struct {
+	data []byte
+	done bool
+}
+
+func (f *failingReader) Read(p []byte) (int, error) {
+	if !f.done {
+		f.done = true
+		return copy(p, f.data), nil
+	}
+	return 0, errors.New("read failed")
+}
+
+// H_C07_AfterFailedHashReader: the hash helpers keep no state between calls: after a data.HashReader call that failed
+// half way (some bytes delivered, then a read error), HashData and RouterInfo.IdentHash still return the hash of exactly
+// their own input.
+//
+//verif:props C07
+//verif:witness hashed
+func H_C07_AfterFailedHashReader() {
+	_, rerr := data.HashReader(&failingReader{data: nd.Bytes(nd.IntRange(1, 3))})
+	nd.Assert(rerr != nil, "hashreader/read-error-is-reported")
+	x := nd.Bytes(nd.IntRange(0, 4))
+	h := data.HashData(x)
+	nd.Assert(h == data.Hash(nd.Hash(x)), "hashdata/hash-of-own-input-after-failed-reader")
+	in, _ := riShape{7, 4, 0, nil, 0, 0}.build()
+	ri, _, err := router_info.ReadRouterInfo(in)
+	if err != nil {
+		return
+	}
+	nd.Cover("hashed")
+	ih, ierr := ri.IdentHash()
+	nd.Assert(ierr == nil && ih.Bytes() == nd.Hash(in[:391]), "identhash/hash-of-identity-after-failed-reader")
 }
